@@ -98,3 +98,42 @@ class PureLayer:
             'tserve': [self.serve('live', rep, timing, 'time', x['t']) for x in tl],
         }
         return line
+
+
+def observe_static(pl: PureLayer, tid: int, s: dict[str, Any]) -> dict[str, Any]:
+    """Static (vod) mode of one layout on the real code, in the line format of
+    LiveWindowHttpTrace.CheckStatic (two lines: $Time$ and $Number$ addressing)."""
+    raise NotImplementedError
+
+
+def static_lines(pl: PureLayer, tid: int, s: dict[str, Any]) -> list[dict[str, Any]]:
+    name = s['lay']
+    pl.layouts[name] = s['layout']
+    ref, timing, rep = pl.make(name, 40, {'depth': 30, 'leeway': 0}, mode='vod')
+    rl, fl = s['layout']['rep'], s['layout']['ref']
+    R = fl['mediaDur'] * rl['ts'] // fl['ts']
+    ref_lo = fl['mediaDur'] * 1000 // fl['ts']
+    ref_hi = -((-fl['mediaDur'] * 1000) // fl['ts'])
+    md = timing.mediaDuration
+    mpd_us = (md.days * 86400 + md.seconds) * 10**6 + md.microseconds
+    common = {'tid': tid, 'ev': 'rep', 'mode': 'vod', 'rep': name, 'ts': rl['ts'], 'D': rl['segdur'], 'sn': rl['sn'],
+              'durs': rl['durs'], 'st': rl['st'], 'R': R, 'init': 200, 'url': f'pure:{name}', 'now': '',
+              'mpd_dur_ms': mpd_us // 1000 if mpd_us % 1000 == 0 else -1, 'ref_ms_lo': ref_lo, 'ref_ms_hi': ref_hi}
+
+    def resp(by: str, key: int) -> dict[str, Any]:
+        sv = pl.serve('vod', rep, timing, by, key)
+        if sv['status'] != 200 or not (1 <= sv['mod'] <= len(rl['durs'])):
+            return {'status': sv['status'] if sv['status'] != 200 else 500, 'tfdt': 0, 'seq': 0, 'dur': 0, 'mod': 0,
+                    'mods': [], 'tmodr': 0, 'payload_ok': 0, 'wf': 0}
+        tfdt = rl['st'] + sum(rl['durs'][:sv['mod'] - 1]) + sv['origin']
+        return {'status': 200, 'tfdt': tfdt, 'seq': sv['seq'], 'dur': rl['durs'][sv['mod'] - 1], 'mod': sv['mod'],
+                'mods': [sv['mod']], 'tmodr': tfdt % R, 'payload_ok': 1, 'wf': 1}
+    tl = pl.expand(rep.generateSegmentTimeline())
+    first, last = rep.calculate_first_and_last_segment_number()
+    nums = list(range(rl['sn'], rl['sn'] + len(rl['durs'])))
+    ln = {**common, 'by': 'number', 'tl': [], 'keys': nums, 'serve': [resp('number', n) for n in nums],
+          'past': resp('number', rl['sn'] + len(rl['durs']))['status'], 'first': first, 'last': last}
+    past_t = tl[-1]['t'] + tl[-1]['d'] if tl else 0
+    lt = {**common, 'by': 'time', 'tl': tl, 'keys': [x['t'] for x in tl], 'serve': [resp('time', x['t']) for x in tl],
+          'past': resp('time', past_t)['status']}
+    return [ln, lt]
